@@ -456,3 +456,6 @@ def run(ctx):
     r7 = ctx.rule("R7", "the dependencies a task waits for are the ones it was submitted with (composition with C11.R4)")
     from .shared import import_rules
     import_rules(ctx, r7, "C11", only={"R4"})
+    r8 = ctx.rule("R8", "'completed iff its process ran and exited 0': the exit status reaches the pool - no code of the package makes the kernel reap children behind asyncio's back (SIGCHLD ignored)")
+    from .shared import rule_signal_dispositions
+    rule_signal_dispositions(ctx, r8, "C13")
